@@ -818,6 +818,8 @@ def stream_known(ctx):
                'get_references', None, 4, 6)
     src12 = 'def f(p):\n    return p\nr = f(a.x=1)\nr'
     attr_probe(src12, 'jedi.Script(source).infer(4, 1)', lambda: jedi.Script(src12).infer(4, 1), 'infer', None, 4, 1)
+    src13 = 'def g(p=[y for y in z if q]):\n    pass\n'
+    attr_probe(src13, 'jedi.Script(source).infer(1, 26)', lambda: jedi.Script(src13).infer(1, 26), 'infer', None, 1, 26)
     src6 = '[\n'
     attr_probe(src6, 'jedi.Script(source).complete()', lambda: jedi.Script(src6).complete(), 'complete', None)
 
